@@ -216,8 +216,8 @@ PLAN = {
         level_text="Fault enumeration: for every generated (table, renderer) pair the space of single write-fault points (index x 3 modes) is enumerated completely (for the rare tables replayed to tens of kilobytes the indices are sampled: every step-th plus the last two); after each fault the same wrapper is driven through a second faulty render and a healthy one. Tables, error values and writer kinds are drawn by rapid. Complete per ordinary table, exploratory over tables.",
         level_note="Faults are injected at the granularity of calls to the writer (Write, and WriteString/WriteByte when the writer offers them) with three failure modes; of multi-fault sequences only 'fault at k, then one fault in the next render on the same wrapper' is exercised. Tables whose fault-free render fails are skipped (counted).",
         technique="fault injection enumerated over every write index x failure mode, on rapid-generated tables (property-based testing)",
-        quick=[rapid("prop", "TestProp", 80, shards=4, min_evals=80)],
-        thorough=[rapid("prop", "TestProp", 2500, shards=16, min_evals=2500, timeout=6000)],
+        quick=[rapid("prop", "TestProp", 80, shards=4, min_evals=80), enum("cross", "TestCross", shards=4)],
+        thorough=[rapid("prop", "TestProp", 2500, shards=16, min_evals=2500, timeout=6000), enum("cross", "TestCross", shards=4)],
     ),
     "C16": dict(
         pkg="c16",
@@ -303,8 +303,32 @@ RULE_EXTRA = {
     "C19": "Names may begin or end with blanks and tabs or hold inner blanks; sub-package and built-in names padded with blanks must resolve as unknown; a wrapper made by auto.Wrap(t, style) is rendered only after five other styles (text, unknown, csv) have been wrapped around, and half of the time rendered on, the same table.",
 }
 
+# additions of round 6 (DESIGN 9.14)
+RULE_EXTRA6 = {
+    "C02": "Histories may note application errors on rows (Row.AddError, pending or attached) and carry property steps in between the build steps.",
+    "C03": "Items are now and then cells holding a cell (by value or pointer); histories carry property steps (alignment etc.) in between the build steps, folded into the reference's alignments, and application errors noted on rows.",
+    "C04": "Nested cells among the items; property steps in between the build steps (set before the columns exist, changed afterwards) are folded into the effective alignments.",
+    "C05": "A third of the cases render early through a kept wrapper (and csv.Render) while the table is still being built; items may be mutated and updated, rows added twice, errors noted on rows.",
+    "C06": "A sixth of the items are of any kind the generator knows (incl. the typed strings of html/template: HTML, JS, CSS, URL, HTMLAttr, JSStr, Srcset), their text form by the model.",
+    "C07": "A third of the cases render early through a kept wrapper; headers may be replaced afterwards (same width or wider); skipable may be set by property steps in between the build steps; now and then headers and rows of 10-12 cells.",
+    "C08": "Headers may be replaced, also by narrower ones: then the table's own column count is the number of columns; alignment may be set by property steps in between the build steps.",
+    "C10": "An application render-time cell callback that reports errors for some cells may be registered on the table right after its creation (on the reference table alike).",
+    "C11": "A registration step may register 2-4 failing callbacks in one slot; macro: a row of its own is made, given 1-3 failing callbacks, filled, perhaps noted an error on, and then attached.",
+    "C12": "Keys also include two pointers of different types to one address and typed nil pointers of different types; macro: a cell gets two keys, is copied, one of the two drops its newest key and takes another.",
+    "C13": "If an add-time row callback is handed the header row, that row becomes an owner: its itself- and cell-slots at pre-cell and post-cell time fire like any row's (macro hdrcapture).",
+    "C14": "Render acts also use styles that name nothing (they fail the same way every time); restyle acts point ONE kept text wrapper at another decoration (by name or by object, known, unknown or empty) and render: only the last selection counts.",
+    "C15": "Error value 'list' (a slice type used by value, not comparable with ==). Job 'cross': 3 fixed tables (incl. a header narrower than its rows, and no header) x 8 renderers x 10 error values x plain/rich writer, every fault point.",
+    "C16": "Shared texts and tokens include quotes, angle brackets, ampersands, pipes and backslashes (every format escapes something).",
+    "C17": "Every third decoration is registered unpopulated (key points only): Named returns exactly what was registered. Unknown names are also tried through auto.New('texttable.'+name).",
+    "C18": "The width alphabet includes terminal control sequences (ANSI colour escapes, OSC, lone ESC, DEL, NUL, BS).",
+    "C19": "'texttable.'+sub-package name (any case) is a decoration name like any other: known only if registered.",
+}
+
 # properties deliberately not claimed, with the reason (empty: the technique applies to all 19)
 NOT_APPLICABLE = {}
 
 for _pid, _extra in RULE_EXTRA.items():
     PLAN[_pid]["rule"] = PLAN[_pid]["rule"] + " Round 5: " + _extra
+
+for _pid, _extra in RULE_EXTRA6.items():
+    PLAN[_pid]["rule"] = PLAN[_pid]["rule"] + " Round 6: " + _extra
